@@ -70,8 +70,8 @@ class Gen:
         self.seed = seed
         self.R = random.Random(seed)
         self.P = profile
-        self.sid_counter = 0
-        self.iid_counter = 0
+        self.sid_counter = self.R.choice([0, 0, 0, 7, 8, 96, 98, 997])     # ids such as S9/S10/S100 coexist
+        self.iid_counter = self.R.choice([0, 0, 0, 8, 97])
         self.sid_style = self.R.choice(['S%d', 'STORY%d', 'st;%d', 'é%d', 'a&b<%d>', '%d'])
         self.iid_style = self.R.choice(['I%d', 'ITEM%d', 'it;%d', 'ü%d', '%d'])
         self.graveyard_s = []
@@ -94,6 +94,9 @@ class Gen:
     def gen_other(self, depth=0):
         R = self.R
         tag = R.choice(['storyPresenter', 'storyPresenterRR', 'mosAbstract', 'note', 'custom', 'x-y', 'storyNum'])
+        if depth >= 2 and R.random() < 0.10:
+            # names that mean something at the top level must mean nothing down here
+            tag = R.choice(['roCreate', 'roDelete', 'mosromgrmeta', 'roStorySend', 'roElementAction', 'roReplace', 'messageID', 'storyBody'])
         attrs = {}
         if R.random() < 0.4:
             attrs[R.choice(['a', 'type', 'b'])] = gen_text(R, self.rich).replace('\n', ' ').replace('\t', ' ')
@@ -166,7 +169,10 @@ class Gen:
             ch.append(self.gen_extmeta('http://item/' + _word(R, 3, 'abc'), note=(gen_text(R, self.rich) if R.random() < 0.7 else None)))
         if R.random() < 0.2:
             ch.append(self.gen_other(1))
-        return N('item', *ch)
+        it = N('item', *ch)
+        if R.random() < 0.12:
+            it[1][R.choice(['a', 'changed', 'status'])] = _word(R, R.randint(1, 4)).strip() or 'x'
+        return it
 
     def gen_story(self, sid=None, item_ids=None, n_items=None):
         R = self.R
@@ -200,7 +206,10 @@ class Gen:
         ch.extend(body)
         if R.random() < 0.2:
             ch.append(self.gen_extmeta('http://other/' + _word(R, 2, 'ab')))
-        return N('story', *ch)
+        st = N('story', *ch)
+        if R.random() < 0.12:
+            st[1][R.choice(['a', 'changed', 'status'])] = _word(R, R.randint(1, 4)).strip() or 'x'
+        return st
 
     def pick_item_id_for_new(self):
         # item ids repeat across stories on purpose
@@ -711,7 +720,8 @@ class Ncs(Gen):
         elif t == 'ReadyToAir':
             op['air'] = R.choice(['READY', 'NOT READY'])
         elif t == 'RODelete':
-            pass
+            if R.random() < 0.25:
+                op['extra'] = [self.gen_meta('roSlug')] + ([self.gen_other(1)] if R.random() < 0.4 else [])
         return op
 
     def _reorder(self, ids):
